@@ -101,7 +101,7 @@ func init() {
 			R34(),
 			R35(),
 			R29(),
-			Only(R16(5, core.PkgGcsemu, core.PkgGcsutil), fns(uploadFns...)),
+			Only(R16(3, core.PkgGcsemu, core.PkgGcsutil), fns(uploadFns...)),
 			Only(R01(nil), `uploadData\.`),
 			Only(R04(), fns("(*GcsEmu).handleGcsNewObjectResume")),
 		},
@@ -116,7 +116,7 @@ func init() {
 			Only(R09(), `^I1/`, `^I2/`, `^I5/`),
 			R08(Only8("ReadRows")),
 			R26(),
-			Only(R14(3, core.PkgBttest), fns("(*chunkBuilder).add")),
+			Only(R14(1, core.PkgBttest), fns("(*chunkBuilder).add")),
 		},
 		Explanation: "Decides: an inverted range is rejected before any scan (R08: validateRowRanges' nil edge dominates every Rows.Ascend* in ReadRows; its error is an InvalidArgument status); every engine honours early stop and puts the range bounds into the right backend slots, the dispatch in ReadRows puts range starts only into lower-bound and range ends only into upper-bound parameters, both engines order by bytewise key (R09 I1/I2/I5); rows_limit counts rows that produced output (R26a: the 'added' result is not constant); the commit flag is set on the last chunk under a length guard (R14).",
 		NotDecided:  []string{"set-union semantics of range merging, the 0x00 successor encoding of open/closed bounds, SampleRowKeys offsets: data dependent"},
@@ -137,7 +137,7 @@ func init() {
 		Modules: bt,
 		Rules: []Rule{
 			R18(),
-			Only(R13(4, core.PkgBttest), fns("filterRow", "filterCells", "includeCell", "modifyCell")),
+			Only(R13(2, core.PkgBttest), fns("filterRow", "filterCells", "includeCell", "modifyCell")),
 			Only(R09(), `^I1/`),
 			R19(Only19("filter")),
 			R36(),
@@ -151,9 +151,9 @@ func init() {
 	Properties["C06"] = &PropertySpec{
 		Modules: bt,
 		Rules: []Rule{
-			Only(R01(map[string]int{"table.rows": 14}), `/table\.rows/`, fns(writeRPCs...)),
+			Only(R01(map[string]int{"table.rows": 7}), `/table\.rows/`, fns(writeRPCs...)),
 			Only(R04(), fns(writeRPCs...)),
-			Only(R02R03(), fns(writeRPCs...)),
+			Only(R02R03(), fns(writeRPCs...), fns("(*table).gc")),
 			R06(),
 			Only(R07(), fns(rpcMutateRow, rpcMutateRows, rpcCAM, rpcRMW)),
 			Only(R09(), `^I4/`),
@@ -167,14 +167,16 @@ func init() {
 	Properties["C07"] = &PropertySpec{
 		Modules: st,
 		Rules: []Rule{
+			R46(),
+			Only(R44(), `memstore`),
 			R11(),
 			R20(),
 			R10(),
 			R32(),
 			R41(),
-			Only(R01(map[string]int{"memBucket.files": 6, "memstore.buckets": 5}), `/memstore\.`, `/memBucket\.`),
+			Only(R01(map[string]int{"memBucket.files": 3, "memstore.buckets": 3}), `/memstore\.`, `/memBucket\.`),
 			Only(R04(), fns("(*memstore).getBucket", "(*memstore).getOrCreateBucket", "(*memstore).CreateBucket", "(*memstore).Add", "(*memstore).UpdateMeta", "(*memstore).Delete", "(*memstore).Walk", "(*memstore).find")),
-			Only(R16(5, core.PkgGcsemu, core.PkgGcsutil), fns("(*GcsEmu).finishUpload", "(*GcsEmu).handleGcsNewObject", "(*GcsEmu).handleGcsNewObjectResume", "(*GcsEmu).handleGcsCopy", "(*GcsEmu).handleGcsUpdateMetadataRequest", "(*GcsEmu).handleGcsCompose", "(*GcsEmu).finishCompose", "(*GcsEmu).handleGcsDelete")),
+			Only(R16(3, core.PkgGcsemu, core.PkgGcsutil), fns("(*GcsEmu).finishUpload", "(*GcsEmu).handleGcsNewObject", "(*GcsEmu).handleGcsNewObjectResume", "(*GcsEmu).handleGcsCopy", "(*GcsEmu).handleGcsUpdateMetadataRequest", "(*GcsEmu).handleGcsCompose", "(*GcsEmu).finishCompose", "(*GcsEmu).handleGcsDelete")),
 		},
 		Explanation: "Decides: every mutating Store call is inside the per-object critical section keyed on exactly the (bucket, name) it mutates, with the precondition check in the same section (R11); the lock map really excludes (R20 L2–L10); the memory store's maps and btrees are only touched under their mutexes (R01/R04); objects obtained from a store are never mutated in place — the patch decodes into a deep-fresh copy (R10); values read after a critical section ended are nil-checked (R16).",
 		NotDecided:  []string{"read consistency of the file store (Get = stat + sidecar + content without the object lock; Add = three file operations): recorded as a known finding", "history-level serialisability beyond the lock discipline"},
@@ -183,6 +185,7 @@ func init() {
 	Properties["C08"] = &PropertySpec{
 		Modules: bt,
 		Rules: []Rule{
+			Only(R44(), `server\.tables`),
 			R21(),
 			Only(R01(nil), `/table\.rows/call (Clear|Close)`),
 		},
@@ -206,7 +209,7 @@ func init() {
 			Only(R22(), `Metageneration`, `metagen`, `read-only`),
 			R23(),
 			R24(),
-			Only(R11(), `/check-then-act`),
+			R11(),
 		},
 		Explanation: "Decides: metageneration is 1 after every content write and cannot be overridden by the caller (the store's assignment post-dominates, both stores, R22); a patch stores old.Metageneration+1 with old read in the same critical section, and re-assigns generation and md5Hash from the pre-decode object after decoding the body (R23); read-only store methods write no record field and call no file-writing function (R22 effect sets); failed preconditions reach no mutator (R11); the X-Goog-Generation/Metageneration headers are formatted from the same object that is sent as the body (R24).",
 		NotDecided:  []string{"generation strictly greater than every earlier one: both stores take wall-clock nanoseconds / file mtime and never compare with the previous generation — depends on clock and file-system timestamp granularity (runtime)"},
@@ -217,8 +220,8 @@ func init() {
 		Rules: []Rule{
 			Only(R17(), `handleGcsListBucket`, `makeBucketListResults`),
 			R27(),
-			Only(R16(5, core.PkgGcsemu, core.PkgGcsutil), fns("(*GcsEmu).makeBucketListResults")),
-			Only(R14(20, core.PkgGcsemu, core.PkgGcsutil), fns("(*GcsEmu).makeBucketListResults")),
+			Only(R16(3, core.PkgGcsemu, core.PkgGcsutil), fns("(*GcsEmu).makeBucketListResults")),
+			Only(R14(10, core.PkgGcsemu, core.PkgGcsutil), fns("(*GcsEmu).makeBucketListResults")),
 			Only(R39(), fns("(*GcsEmu).makeBucketListResults")),
 		},
 		Explanation: "Decides (narrow): a malformed page token or maxResults is answered 400 and a missing bucket 404, each followed by return (R17); token encoder and decoder use the same alphabet and message field (R27); the enumeration order the cursor logic relies on must come from an ordered container keyed by the full name (R27 ordering contract); items resolved after the walk are nil-checked before use (R16/R14).",
@@ -244,7 +247,7 @@ func init() {
 			R08(Only8("ReadModifyWriteRow")),
 			Only(R07(), fns(rpcRMW)),
 			Only(R02R03(), fns(rpcRMW)),
-			Only(R14(3, core.PkgBttest), fns(rpcRMW)),
+			Only(R14(1, core.PkgBttest), fns(rpcRMW)),
 			Only(R09(), `^I4/.*/Get$`),
 			R37(),
 			Only(R33(), fns(rpcRMW)),
@@ -256,9 +259,10 @@ func init() {
 	Properties["C14"] = &PropertySpec{
 		Modules: bt,
 		Rules: []Rule{
+			Only(R44(), `server\.tables`),
 			Only(R43(), fns("(*server).DropRowRange")),
 			Only(R07(), fns(adminRPCs...)),
-			Only(R01(map[string]int{"server.tables": 17}), `/server\.tables/`, fns(adminRPCs...)),
+			Only(R01(map[string]int{"server.tables": 8}), `/server\.tables/`, fns(adminRPCs...)),
 			Only(R04(), fns(adminRPCs...)),
 			R05(),
 			R08(Only8("live-families")),
@@ -273,10 +277,11 @@ func init() {
 	Properties["C15"] = &PropertySpec{
 		Modules: st,
 		Rules: []Rule{
+			R46(),
 			R08(Only8("finishCompose")),
 			Only(R11(), fns("(*GcsEmu).finishCompose", "(*GcsEmu).handleGcsCopy")),
-			Only(R14(20, core.PkgGcsemu, core.PkgGcsutil), fns(composeCopyFns...)),
-			Only(R16(5, core.PkgGcsemu, core.PkgGcsutil), fns(composeCopyFns...)),
+			Only(R14(10, core.PkgGcsemu, core.PkgGcsutil), fns(composeCopyFns...)),
+			Only(R16(3, core.PkgGcsemu, core.PkgGcsutil), fns(composeCopyFns...)),
 			Only(R15(), `handleGcsCompose`, `handleGcsCopy`),
 			Only(R22(), `Copy`),
 			Only(R10(), `Copy`, `compose`),
@@ -292,7 +297,7 @@ func init() {
 		Modules: bt,
 		Rules: []Rule{
 			Only(R02R03(), fns(gcFns...)),
-			Only(R13(4, core.PkgBttest), fns("applyGC")),
+			Only(R13(2, core.PkgBttest), fns("applyGC")),
 			Only(R01(nil), fns(gcFns...)),
 			Only(R04(), fns(gcFns...)),
 			R08(Only8("gc")),
@@ -316,12 +321,13 @@ func init() {
 	Properties["C18"] = &PropertySpec{
 		Modules: bt,
 		Rules: []Rule{
+			Only(R01(nil), `/table\.rows/`),
 			Only(R01(nil), fns(scanFns...), fns("scrubRow")),
 			Only(R04(), fns(scanFns...)),
 			Only(R02R03(), fns(scanFns...)),
 			Only(R09(), `^I3/`, `^I4/`),
 			R31(),
-			Only(R16(5, core.PkgBttest), fns(scanFns...)),
+			Only(R16(3, core.PkgBttest), fns(scanFns...)),
 		},
 		Explanation: "Decides the three mechanisms C18 anchors: the scan holds table.mu (read) at every Rows access and at every use of the table definition, gives it up only around stream.Send and re-takes it on every path (R01, R04 incl. the reversal closure); it never writes a row back (R03); one backend iterator per range scan, created under the lock (R31); every row delivered is one freshly deserialised stored value, never shared with a writer, and iteration is synchronous (R09 I3/I4).",
 		NotDecided:  []string{"that leveldb iterators are snapshots (library contract, trusted); order/duplicates under interleavings: histories"},
@@ -330,8 +336,9 @@ func init() {
 	Properties["C19"] = &PropertySpec{
 		Modules: st,
 		Rules: []Rule{
+			Only(R44(), `TransientLockMap`),
 			R20(),
-			Only(R01(map[string]int{"TransientLockMap.locks": 4, "countedLock.refcount": 4}), `/TransientLockMap\.`, `/countedLock\.`),
+			Only(R01(map[string]int{"TransientLockMap.locks": 2, "countedLock.refcount": 2}), `/TransientLockMap\.`, `/countedLock\.`),
 			Only(R04(), fns("(*TransientLockMap).Lock", "(*TransientLockMap).Unlock", "(*TransientLockMap).returnLockObj", "(*TransientLockMap).Run")),
 		},
 		Explanation: "Decides R20 L1–L10, each a necessary condition of a clause of C19: the map and the reference counts are only touched under the map mutex (L1 = R01/R04); lookup-or-create and refcount++ in one critical section (L2) and eviction only at refcount==0 after the decrement (L9): no eviction while referenced, no leak; nothing blocks under the map mutex (L3): independent keys never block each other; Lock returns false only after giving its reference back and true only on the acquired edge (L4), countedLock.Lock returns true iff the send into the key channel was chosen (L6): false ⇒ holds nothing; Unlock releases before giving the reference back and an unheld key panics (L5, L7); Run unlocks exactly what it locked, registered before f runs (L8); the key channel has capacity 1 (L10): at most one holder.",
@@ -341,11 +348,13 @@ func init() {
 	Properties["C20"] = &PropertySpec{
 		Modules: []string{"bigtable", "storage"},
 		Rules: []Rule{
-			R13(5, core.PkgBttest, core.PkgGcsemu, core.PkgGcsutil),
-			R14(23, core.PkgBttest, core.PkgGcsemu, core.PkgGcsutil),
+			R46(),
+			R44(),
+			R13(3, core.PkgBttest, core.PkgGcsemu, core.PkgGcsutil),
+			R14(12, core.PkgBttest, core.PkgGcsemu, core.PkgGcsutil),
 			R15(),
-			R16(30, core.PkgBttest, core.PkgGcsemu, core.PkgGcsutil),
-			R01(map[string]int{"server.tables": 17, "table.rows": 14, "table.def": 8, "memBucket.files": 6, "memstore.buckets": 5}),
+			R16(15, core.PkgBttest, core.PkgGcsemu, core.PkgGcsutil),
+			R01(map[string]int{"server.tables": 8, "table.rows": 7, "table.def": 4, "memBucket.files": 3, "memstore.buckets": 3}),
 			R04(),
 			R05(),
 			R17(),
